@@ -1,9 +1,5 @@
 package fbb
 
-import "io"
-
-var ioEOF = io.EOF
-
 // C03: no byte sequence from the remote can crash, hang or exhaust a session.
 // Unit-level harnesses; every Go run-time panic, explicit panic, unwinding
 // failure and over-limit allocation is a violation.
@@ -143,20 +139,6 @@ func H_c03_message_sizes() {
 	symReach("end")
 }
 
-type sliceReader struct {
-	b   []byte
-	pos int
-}
-
-func (r *sliceReader) Read(p []byte) (int, error) {
-	if r.pos >= len(r.b) {
-		return 0, ioEOF
-	}
-	n := copy(p, r.b[r.pos:])
-	r.pos += n
-	return n, nil
-}
-
 // outbound side: the remote's answer controls the offset into our data
 func H_c03_send_offset() {
 	L := symParam("L", 4)
@@ -175,6 +157,28 @@ func H_c03_send_offset() {
 	data := []byte{1, 2, 3, 4, 5, 6, 7, 8, 9, 10, 11, 12}
 	prop := &Proposal{code: Wl2kProposal, msgType: "EM", mid: "MIDMIDMIDMID", title: "t", size: 20, compressedData: data, compressedSize: len(data)}
 	_, err := s.sendOutbound(conn, []*Proposal{prop})
+	_ = err
+	symReach("end")
+}
+
+// whole inbound path with a valid tiny message whose proposal line announces
+// boundary values for the (never validated) sizes
+func H_c03_inbound_sizes() {
+	m := mkMsg("ABCDEFGHIJKL", "s", "hello\r\n")
+	raw, _ := m.Bytes()
+	p := NewProposal("ABCDEFGHIJKL", "s", Wl2kProposal, raw)
+	usizes := [...]string{"-1", "0", "268435456", "2147483647", "99999999999999999", "x"}
+	usize := usizes[symInt(0, len(usizes)-1)]
+	line := "FC EM ABCDEFGHIJKL " + usize + " " + refItoa(len(p.compressedData)) + " 0"
+	var in []byte
+	in = append(in, refProposalBlock([]string{line})...)
+	in = append(in, refEncodeFrame("s", 0, p.compressedData, nil)...)
+	in = append(in, "FF\r"...)
+	conn := newVConn(in)
+	h := &recHandler{failAt: -1}
+	s := newVSession(h, conn, false)
+	symLimitAlloc(1 << 22)
+	_, err := s.handleInbound(conn)
 	_ = err
 	symReach("end")
 }
